@@ -252,12 +252,15 @@ def _const_truth(e, none_names=()):
     """True / False when the truth value of the test e is fixed: constants, names known to hold None
     (`none_names`), `is` / `==` comparisons between those, `not`, and / or; else None."""
     UNK = _const_truth
+    if not isinstance(none_names, dict):
+        # a set of names known to hold None, or a mapping name -> known constant value
+        none_names = {n: None for n in none_names}
 
     def val(x):
         if isinstance(x, ast.Constant):
             return x.value
         if isinstance(x, ast.Name) and x.id in none_names:
-            return None
+            return none_names[x.id]
         return UNK
 
     if isinstance(e, ast.UnaryOp) and isinstance(e.op, ast.Not):
@@ -275,6 +278,16 @@ def _const_truth(e, none_names=()):
             res = (l is None and r is None) if (l is None or r is None) else l == r
             return res if pos else not res
         # a value that is certainly an object (call of a constructor-like literal) is not decided here
+        return None
+    if isinstance(e, ast.Compare) and len(e.ops) == 1 and isinstance(e.ops[0], (ast.In, ast.NotIn)) and \
+            isinstance(e.comparators[0], (ast.Tuple, ast.List, ast.Set)):
+        l, rs = val(e.left), [val(x) for x in e.comparators[0].elts]
+        if l is not UNK and all(r is not UNK for r in rs) and not any(isinstance(x, ast.Starred) for x in e.comparators[0].elts):
+            try:
+                res = l in rs
+            except TypeError:
+                return None
+            return res if isinstance(e.ops[0], ast.In) else not res
         return None
     v = val(e)
     if v is UNK:
@@ -341,6 +354,179 @@ class Effects:
         self._cb = None
         self.truncated = []
         self.unresolved = set()
+        self._acc = {}
+        self.accessors_run = set()
+        self.reg_attrs = set(REG_ATTRS)
+        self._init_accessors()
+
+    # ---- attribute accesses that run code ----------------------------------
+    # `r.base = v` is a call when the class of r makes `base` a property with a setter (decorator or
+    # property(...) form), a descriptor object with __set__, or overrides __setattr__; `r.base` is a call
+    # of the getter / __get__.  Such an access is treated exactly like the call it is: the accessor is
+    # summarised in the receiver's state, its 4.xx raises and its state changes are events of the statement
+    # (a store's after the right-hand side has been evaluated).  The attributes a getter of a registration
+    # attribute reads on self and those its setter stores are its *backing fields*: a store to one of them is
+    # a store to the registration attribute (REG_ATTRS is closed under this), so that the order of the store
+    # and the raise inside a validating setter is decided inside the setter.
+    _PROP_DECOS = ("property", "cached_property", "functools.cached_property")
+
+    def _class_accessors(self, ci):
+        """{attr: {'get': FuncInfo|None, 'set': FuncInfo|None}} for one class body (not inherited)."""
+        if ci.qn in self._acc:
+            return self._acc[ci.qn]
+        out = {}
+        for fn in self.prog.funcs.values():
+            if fn.cls is not ci or fn.parent is not None or isinstance(fn.node, ast.Lambda):
+                continue
+            for d in fn.node.decorator_list:
+                dt = chain(d.func if isinstance(d, ast.Call) else d) or ""
+                if dt in self._PROP_DECOS:
+                    out.setdefault(fn.name, {}).setdefault("get", fn)
+                elif dt.endswith(".setter"):
+                    out.setdefault(fn.name, {})["set"] = fn
+                elif dt.endswith(".getter"):
+                    out.setdefault(fn.name, {})["get"] = fn
+        for attr, v in ci.attrs.items():
+            if not isinstance(v, ast.Call) or not chain(v.func):
+                continue
+            if chain(v.func) == "property":
+                slots = {}
+                for i, a in enumerate(v.args[:2]):
+                    slots[("get", "set")[i]] = a
+                for kw in v.keywords:
+                    if kw.arg in ("fget", "fset"):
+                        slots[kw.arg[1:]] = kw.value
+                for k, a in slots.items():
+                    if isinstance(a, ast.Constant) and a.value is None:
+                        continue
+                    if isinstance(a, ast.Name) and a.id in ci.methods:
+                        out.setdefault(attr, {})[k] = ci.methods[a.id]
+                    elif isinstance(a, ast.Lambda) and not any(isinstance(x, (ast.Call, ast.Await, ast.Yield, ast.YieldFrom, ast.NamedExpr)) for x in ast.walk(a.body)):
+                        continue  # a call-free lambda neither raises a RenderableError nor stores
+                    else:
+                        raise AnalysisError("cannot interpret the %ster of property %s.%s: %s" % (k, ci.qn, attr, stmt_text(a, 60)))
+                continue
+            # a descriptor object of the package: __get__(self, obj, objtype) / __set__(self, obj, value)
+            dc = self.codes.canon(self.prog.resolve_in_module(ci.module, chain(v.func)))
+            if dc not in self.prog.classes and (ci.qn.rsplit(".", 1)[0] + "." + chain(v.func)) in self.prog.classes:
+                dc = ci.qn.rsplit(".", 1)[0] + "." + chain(v.func)
+            if dc is not None and dc in self.prog.classes:
+                g, st_ = self.prog.lookup_method(dc, "__get__"), self.prog.lookup_method(dc, "__set__")
+                if g is not None:
+                    out.setdefault(attr, {})["dget"] = g
+                if st_ is not None:
+                    out.setdefault(attr, {})["dset"] = st_
+        self._acc[ci.qn] = out
+        return out
+
+    def _accessor_of(self, clsqn, attr, kind):
+        """(FuncInfo, flavour) run by reading (kind 'get') / storing (kind 'set') <instance of clsqn>.attr,
+        else None; flavour: 'prop' (self[, value]), 'desc' (descriptor, obj[, value]), 'setattr' (self, name, value)."""
+        for k in self.prog.mro(clsqn):
+            ci = self.prog.classes.get(k)
+            if ci is None:
+                continue
+            acc = self._class_accessors(ci).get(attr)
+            if acc:
+                if acc.get(kind) is not None:
+                    return acc[kind], "prop"
+                if acc.get("d" + kind) is not None:
+                    return acc["d" + kind], "desc"
+                break
+            if attr in ci.methods or attr in ci.attrs:
+                break
+        if kind == "set":
+            m = self.prog.lookup_method(clsqn, "__setattr__")
+            if m is not None:
+                return m, "setattr"
+        return None
+
+    def _init_accessors(self):
+        self.accessor_names = set()
+        self.setattr_classes = set()
+        for ci in self.prog.classes.values():
+            if ci.module.name != RDMOD:
+                continue
+            for k in self.prog.mro(ci.qn):
+                c2 = self.prog.classes.get(k)
+                if c2 is None:
+                    continue
+                self.accessor_names |= set(self._class_accessors(c2))
+                if "__setattr__" in c2.methods:
+                    self.setattr_classes.add(ci.qn)
+        # backing fields of the registration attributes
+        work = list(REG_ATTRS)
+        while work:
+            a = work.pop()
+            for kind in ("get", "set"):
+                r = self._accessor_of(REGQN, a, kind)
+                if r is None or r[1] != "prop":
+                    continue
+                fn = r[0]
+                ps = params(fn, skip_self=False)
+                if not ps:
+                    continue
+                for n in walk_no_nested(fn.node):
+                    if isinstance(n, ast.Attribute) and isinstance(n.value, ast.Name) and n.value.id == ps[0]:
+                        if isinstance(n.ctx, ast.Load if kind == "get" else (ast.Store, ast.Del)) and n.attr not in self.reg_attrs:
+                            if self.prog.lookup_method(REGQN, n.attr) is not None and self._accessor_of(REGQN, n.attr, "get") is None:
+                                continue  # a method, not a field
+                            self.reg_attrs.add(n.attr)
+                            work.append(n.attr)
+
+    def accessor_call(self, fi, env, recv, attr, nid, kind, value=None):
+        """(callee, Env) when the access `recv.attr` (kind 'get' / 'set') runs code of the package, else None."""
+        if attr not in self.accessor_names and not (kind == "set" and self.setattr_classes):
+            return None
+        own = _owner_class(fi)
+        if chain(recv) == "self" and own is not None and own in self.prog.classes and params(fi, skip_self=False)[:1] == ["self"] and not writes_to_name(fi.node, "self"):
+            cls = own
+            st = (env.selfstate or "unk") if self.prog.is_subclass(cls, REGQN) or cls == REGQN else None
+        else:
+            st = self.state(fi, env, recv, nid)
+            if st == "other":
+                return None
+            cls = REGQN
+        r = self._accessor_of(cls, attr, kind)
+        if r is None:
+            return None
+        fn, flavour = r
+        ps = params(fn)
+        pst = {}
+        if flavour == "desc":
+            if ps and st in ("pub", "fresh"):
+                pst[ps[0]] = st
+            cenv = Env(None, pst)
+        else:
+            if flavour == "setattr":
+                # a store on a receiver of unknown origin is looked at only for the registration attributes
+                # (as plain stores are); the hook is summarised for the attribute name of this store
+                if st == "unk" and chain(recv) != "self" and attr not in self.reg_attrs:
+                    return None
+                if ps:
+                    pst[ps[0]] = ("const", attr)
+            vi = {"prop": 0, "setattr": 1}[flavour]
+            if kind == "set" and value is not None and len(ps) > vi:
+                vs = self.state(fi, env, value, nid)
+                if vs in ("pub", "fresh"):
+                    pst[ps[vi]] = vs
+            cenv = Env(st, pst)
+        self.accessors_run.add("%s.%s (%s) -> %s" % (cls.split(".")[-1], attr, kind, fn.short))
+        return fn, cenv
+
+    def _accessor_events(self, fi, env, nd, depth, S, site, recv, attr, kind, pos, value=None):
+        """[(pos, changes, raises)] of the accessor run by `recv.attr` at `site`; None when it runs no code."""
+        r = self.accessor_call(fi, env, recv, attr, nd.id, kind, value)
+        if r is None:
+            return None
+        callee, cenv = r
+        s = self.summary(callee, cenv, depth + 1)
+        cch = ["%s via %s of .%s" % (c, callee.name if callee.name.startswith("__") else "the setter" if kind == "set" else "the getter", attr) if " via " not in c else c for c in s.changes[:3]]
+        crz = [(cls, why) for cls, why in s.raises if not self.caught_locally(fi, site, cls)]
+        for k, v in s.viol.items():
+            S.viol.setdefault(k, v)
+        S.exempt += [x for x in s.exempt if x not in S.exempt]
+        return [(pos, cch, crz)], bool(s.changes)
 
     # ---- constructor-bound callbacks -----------------------------------
     def callbacks(self):
@@ -443,7 +629,7 @@ class Effects:
             if not writes:
                 if e.id in pnames:
                     st = env.pstates.get(e.id, "unk")
-                    return "other" if st == "none" else st
+                    return "other" if st == "none" or isinstance(st, tuple) else st
                 return "unk"
             defs = reaching_defs(fi, e.id, nid)
             if not defs:
@@ -459,7 +645,7 @@ class Effects:
                 else:
                     sts.append("unk")
             if e.id in pnames and any(nid in cfg.reach({cfg.entry}, avoid={x for w in writes for x in cfg.locate(w)}, include_src=True) for _ in (0,)):
-                sts.append({"none": "other"}.get(env.pstates.get(e.id), env.pstates.get(e.id, "unk")))
+                sts.append("other" if env.pstates.get(e.id) == "none" or isinstance(env.pstates.get(e.id), tuple) else env.pstates.get(e.id, "unk"))
             st = _join(sts)
             if st == "fresh" and any(nid in cfg.reach({p}) for p in self.publish_nodes(fi, e.id)):
                 return "pub"
@@ -525,6 +711,10 @@ class Effects:
         out = []
         f = call.func
         callees = []
+        if isinstance(f, ast.Attribute) and isinstance(f.value, ast.Name) and f.value.id == "object" and not writes_to_name(fi.node, "object"):
+            # object.__setattr__(r, name, v) etc.: the built-in's method, never code of the package (the
+            # resolver's unique-method-name fallback would answer with the class's own override)
+            return out
         # constructor-bound callback attributes of a Registration
         if isinstance(f, ast.Attribute) and chain(f.value) == "self" and _owner_class(fi) == REGQN and f.attr in self.callbacks():
             callees = [(c, None) for c in self.callbacks()[f.attr]]
@@ -675,14 +865,25 @@ class Effects:
                         if isinstance(tt, ast.Subscript) and _dict_of(tt.value) is not None:
                             # r.__dict__["links"] = v / vars(r)["links"] = v
                             kk = resolve_local(fi.node, tt.slice)
-                            if not (isinstance(kk, ast.Constant) and kk.value not in REG_ATTRS):
+                            if not (isinstance(kk, ast.Constant) and kk.value not in self.reg_attrs):
                                 st = self.state(fi, env, _dict_of(tt.value), nd.id)
                                 if st == "fresh":
                                     S.exempt.append("%s: %s (receiver under construction)" % (fi.short, stmt_text(n, 60)))
                                 elif st != "other":
                                     ch.append("store into the attribute dictionary of a %s registration" % ("published" if st == "pub" else "possibly published"))
                             continue
-                        if isinstance(base, ast.Attribute) and base.attr in REG_ATTRS:
+                        stored_by_accessor = False
+                        if isinstance(tt, ast.Attribute) and not isinstance(n, ast.Delete):
+                            ae = self._accessor_events(fi, env, nd, depth, S, n, tt.value, tt.attr, "set", store_pos,
+                                                       n.value if isinstance(n, ast.Assign) and tt is t else None)
+                            if ae is not None:
+                                events.extend(ae[0])
+                                # the accessor's own stores are the change (decided in its summary); an accessor in
+                                # which no store is recognised is taken to store the attribute somehow
+                                stored_by_accessor = ae[1]
+                        if stored_by_accessor:
+                            continue
+                        if isinstance(base, ast.Attribute) and base.attr in self.reg_attrs:
                             st = self.state(fi, env, base.value, nd.id)
                             if st == "other":
                                 continue
@@ -692,12 +893,16 @@ class Effects:
                             ch.append("store to .%s of a %s registration" % (base.attr, "published" if st == "pub" else "possibly published"))
                 if isinstance(n, ast.Call) and isinstance(n.func, ast.Attribute) and n.func.attr in MUT:
                     base = _strip_subscripts(n.func.value)
-                    if isinstance(base, ast.Attribute) and base.attr in REG_ATTRS:
+                    if isinstance(base, ast.Attribute) and base.attr in self.reg_attrs:
                         st = self.state(fi, env, base.value, nd.id)
                         if st == "fresh":
                             S.exempt.append("%s: %s (receiver under construction)" % (fi.short, stmt_text(n, 60)))
                         elif st != "other":
                             events.append((_endpos(n), ["%s() on .%s of a %s registration" % (n.func.attr, base.attr, "published" if st == "pub" else "possibly published")], []))
+                if isinstance(n, ast.Attribute) and isinstance(n.ctx, ast.Load) and n.attr in self.accessor_names:
+                    ae = self._accessor_events(fi, env, nd, depth, S, n, n.value, n.attr, "get", _endpos(n))
+                    if ae is not None:
+                        events.extend(ae[0])
                 # reflective spellings of an attribute store: setattr(r, "links", v), r.__setattr__("links", v),
                 # delattr, r.__dict__["links"] = v / vars(r)[...] = v / r.__dict__.update(...) (a name that is
                 # not a constant is taken to be any attribute)
@@ -706,11 +911,28 @@ class Effects:
                     robj, rname = n.args[0], n.args[1]
                 elif isinstance(n, ast.Call) and isinstance(n.func, ast.Attribute) and n.func.attr in ("__setattr__", "__delattr__") and n.args:
                     robj, rname = n.func.value, n.args[0]
+                    if isinstance(robj, ast.Call) and chain(robj.func) == "super" and not robj.args:
+                        # super().__setattr__(name, v): the receiver is the method's own first parameter
+                        fp = params(fi, skip_self=False)
+                        robj = ast.copy_location(ast.Name(id=fp[0], ctx=ast.Load()), robj) if fp else robj
+                    elif len(n.args) >= 2 and chain(robj) and (chain(robj) == "object" or self.EA.res.class_of_name(fi, chain(robj)) in self.prog.classes):
+                        # object.__setattr__(r, name, v) / Class.__setattr__(r, name, v)
+                        robj, rname = n.args[0], n.args[1]
                 elif isinstance(n, ast.Call) and isinstance(n.func, ast.Attribute) and n.func.attr in MUT and _dict_of(n.func.value) is not None:
                     robj, rname = _dict_of(n.func.value), None
                 if robj is not None:
                     nm = resolve_local(fi.node, rname) if rname is not None else None
-                    if not (isinstance(nm, ast.Constant) and isinstance(nm.value, str) and nm.value not in REG_ATTRS):
+                    if isinstance(nm, ast.Name) and isinstance(env.pstates.get(nm.id), tuple) and not writes_to_name(fi.node, nm.id):
+                        nm = ast.Constant(value=env.pstates[nm.id][1])
+                    ae = None
+                    if isinstance(n.func, ast.Name) and n.func.id == "setattr" and len(n.args) == 3 and isinstance(nm, ast.Constant) and isinstance(nm.value, str):
+                        # setattr(r, "base", v) runs the same setter / hook as r.base = v
+                        ae = self._accessor_events(fi, env, nd, depth, S, n, robj, nm.value, "set", _endpos(n), n.args[2])
+                        if ae is not None:
+                            events.extend(ae[0])
+                    if ae is not None and ae[1]:
+                        pass
+                    elif not (isinstance(nm, ast.Constant) and isinstance(nm.value, str) and nm.value not in self.reg_attrs):
                         st = self.state(fi, env, robj, nd.id)
                         if st == "fresh":
                             S.exempt.append("%s: %s (receiver under construction)" % (fi.short, stmt_text(n, 60)))
@@ -790,7 +1012,9 @@ class Effects:
         ch_nodes, rz_nodes = {}, {}
         # branch outcomes that cannot be taken in this context: tests with a fixed truth value, e.g. `links is
         # not None` in a helper that was expanded / is summarised for a call that passes (or defaults to) None
-        none_names = {p for p, st in env.pstates.items() if st == "none" and not writes_to_name(fi.node, p)}
+        # (("const", v): the parameter holds the constant v -- the attribute name handed to a __setattr__)
+        none_names = {p: (None if st == "none" else st[1]) for p, st in env.pstates.items()
+                      if (st == "none" or isinstance(st, tuple)) and not writes_to_name(fi.node, p)}
         dead = _dead_outcomes(cfg, none_names)
         live = cfg.reach({cfg.entry}, avoid=dead, include_src=True)
         for nd in cfg.nodes:
@@ -2422,6 +2646,18 @@ R.seed("C20.k", F, "            return parse(message.payload.decode(\"utf8\"))\n
 
 # eighth pass: C20.d also interprets absolute timers (loop.call_at) and the lazy design (the callback re-checks a
 # deadline field and re-arms itself); the invariant over all writers of the deadline must bite
+
+# attribute accesses that run code (validating property setters, __setattr__ hooks, descriptors)
+_A_HREF = "        @property\n        def href(self):\n            return \"/\" + \"/\".join(self.path)\n"
+R.seed("C20.a", F, _A_HREF, _A_HREF + "\n        @property\n        def base(self):\n            return self._base\n\n        @base.setter\n        def base(self, value):\n            if \"#\" in value:\n                raise error.BadRequest(\"fragment in base\")\n            self._base = value\n",
+       "validating setter of .base: update_params stores .lt before it, the 4.00 arrives after the lifetime was altered")
+R.seed("C20.a", F, _A_HREF, _A_HREF + "\n        def _get_explicit(self):\n            return self._explicit\n\n        def _set_explicit(self, value):\n            if not isinstance(value, bool):\n                raise error.BadRequest(\"flag expected\")\n            self._explicit = value\n\n        base_is_explicit = property(_get_explicit, _set_explicit)\n",
+       "property(fget, fset) form: the setter of .base_is_explicit may refuse after .lt and .base were stored")
+R.seed("C20.a", F, _A_HREF, _A_HREF + "\n        @property\n        def lt(self):\n            return self._lt\n\n        @lt.setter\n        def lt(self, value):\n            self._lt = value\n            if value < 0:\n                raise error.BadRequest(\"negative lt\")\n",
+       "setter of .lt stores its backing field and validates afterwards")
+R.seed("C20.a", F, _A_HREF, _A_HREF + "\n        def __setattr__(self, name, value):\n            if name == \"base\" and not value:\n                raise error.BadRequest(\"empty base\")\n            object.__setattr__(self, name, value)\n",
+       "__setattr__ hook of the registration refuses a base after .lt was stored")
+
 _D_ARM = "            self.timeout = asyncio.create_task(\n                longwait(delay, self.delete),\n                name=\"RD Timeout for %r\" % self,\n            )\n"
 R.seed("C20.d", F, _D_ARM, "            loop = asyncio.get_running_loop()\n            self.timeout = loop.call_at(loop.time() + self.lt, self.delete)\n", "absolute timer (call_at) without the grace period")
 R.seed("C20.d", F, _D_ARM + "\n        def refresh_timeout(self):\n            self.timeout.cancel()\n            self._set_timeout()\n",
